@@ -66,6 +66,16 @@ def cases(tier):
                         l3 = ip.format(t="w", o="v")
                         if vp.well_typed([nv, l2, l3], shape, True):
                             progs += with_consumers([nv, l2, l3], True)[-2:]
+            # ... and a two-step view chain of the non-C-ordered base itself (e.g. t.T.reshape(-1): a view only because of the layout)
+            for v1 in vp.VIEWS_Q + ["{d} = {s}.reshape(-1)"]:
+                for v2 in vp.VIEWS_Q + ["{d} = {s}.reshape(-1)"]:
+                    l1, l2 = v1.format(d="v", s="t"), v2.format(d="w", s="v")
+                    if not vp.well_typed([l1, l2], shape, True):
+                        continue
+                    for ip in ("{t}[:1] = c1", "{t}[...] = y0", "{t} *= k", "mg.multiply({o}, y0, out={t}, where=Mt)"):
+                        l3 = ip.format(t="w", o="w")
+                        if vp.well_typed([l1, l2, l3], shape, True):
+                            progs += with_consumers([l1, l2, l3], True)[-1:]
         size = 40
         for i in range(0, len(progs), size):
             out.append({"name": "%s/%d" % (base, i), "base": base, "progs": progs[i:i + size]})
